@@ -51,6 +51,9 @@ CLIENT_VICTIM_KINDS = {  # sent by the adversarial SERVER
     "EE/unk": ("encrypted_extensions", {"extra_extensions": [(0xABCD, b"xyz")]}),
     "CR": ("certificate_request", {}),
     "CERT": ("certificate", {}),
+    # RFC 8446 4.4.2: "The server's certificate_list MUST always be non-empty" - a server that
+    # presents nothing has authenticated nothing
+    "CERT/empty": ("certificate", {"chain": []}),
     "CV": ("certificate_verify", {"key": "leaf"}),
     "CV/spare": ("certificate_verify", {"key": "spare"}),
     "FIN": ("finished", {}),
@@ -169,9 +172,13 @@ class Ref:
                     return ("accept", "WAIT_CERT")
                 if label == "CERT":
                     return ("accept", "WAIT_CV")
+                if label == "CERT/empty":
+                    return ("content",)
             elif s == "WAIT_CERT":
                 if label == "CERT":
                     return ("accept", "WAIT_CV")
+                if label == "CERT/empty":
+                    return ("content",)
             elif s == "WAIT_CV":
                 if label == "CV":
                     return ("accept", "WAIT_FINISHED")
@@ -643,6 +650,12 @@ def run_history(variant, history, mode="each", trace=None):
                 w.after_accept(label, raw)
             else:
                 refusals += 1
+                if cls[0] != "unexpected" and w.deep() != deep_before:
+                    # a refusal for CONTENT (type permitted) may legitimately have consumed the message
+                    # into the transcript before failing - every TLS alert is fatal (RFC 8446 6.2), so
+                    # nothing the property states concerns what such a context does afterwards
+                    outcomes[-1] += ":fatal"
+                    break
     agree, differ = check_secrets(w) if violation is None else (0, 0)
     finished = w.victim.state.name in ("CLIENT_POST_HANDSHAKE", "SERVER_POST_HANDSHAKE")
     if violation is None and finished != (w.ref.state in ("CONNECTED", "S_CONNECTED")):
@@ -996,11 +1009,11 @@ def strengths(seq, alts):
 
 SEQ_WORLDS = {
     # name -> (variant, hello label, letters, alternatives, literal legal flights)
-    "c_full": ("c_full", "SH", ("EE", "CR", "CERT", "CV", "FIN"), {"CV": ("CV", "CV/spare"), "EE": ("EE", "EE/early", "EE/unk")},
+    "c_full": ("c_full", "SH", ("EE", "CR", "CERT", "CV", "FIN"), {"CV": ("CV", "CV/spare"), "EE": ("EE", "EE/early", "EE/unk"), "CERT": ("CERT", "CERT/empty")},
                {("EE", "CERT", "CV", "FIN"), ("EE", "CR", "CERT", "CV", "FIN")}),
-    "c_offered_not_selected": ("c_offered", "SH", ("EE", "CR", "CERT", "CV", "FIN"), {"CV": ("CV", "CV/spare"), "EE": ("EE", "EE/early", "EE/unk")},
+    "c_offered_not_selected": ("c_offered", "SH", ("EE", "CR", "CERT", "CV", "FIN"), {"CV": ("CV", "CV/spare"), "EE": ("EE", "EE/early", "EE/unk"), "CERT": ("CERT", "CERT/empty")},
                                {("EE", "CERT", "CV", "FIN"), ("EE", "CR", "CERT", "CV", "FIN")}),
-    "c_psk_selected": ("c_offered", "SH/psk0", ("EE", "CR", "CERT", "CV", "FIN"), {"CV": ("CV", "CV/spare"), "EE": ("EE", "EE/early", "EE/unk")},
+    "c_psk_selected": ("c_offered", "SH/psk0", ("EE", "CR", "CERT", "CV", "FIN"), {"CV": ("CV", "CV/spare"), "EE": ("EE", "EE/early", "EE/unk"), "CERT": ("CERT", "CERT/empty")},
                        {("EE", "FIN")}),
     "s_plain": ("s_plain", "CH", ("CERT", "CV", "FIN"),
                 {"CV": ("CV", "CV/spare"), "CERT": ("CERT", "CERT/empty")}, {("FIN",)}),
